@@ -6,13 +6,25 @@ from checks import spell, streams, scanner_mc
 def run(ctx):
     q = ctx.quick()
     scanner_mc.spell_mc(ctx)
-    prm = dict(kind="card", upto=2000 if q else 1000000, rlow=[0, 1, 7, 11, 16, 21, 71, 80, 81, 88, 99, 100, 101, 181, 999] if q else spell.RQUICK_LOW + [3, 4, 8, 12, 13, 17, 19, 30, 60, 61, 90, 98, 108, 111, 121, 300, 480, 800, 881, 900],
-               rhigh=[0, 1, 2, 100] if q else spell.RQUICK_HIGH + [81, 180], randn=2000 if q else 300000, seed=ctx.seed % 100000)
-    spell.apply_conformance(ctx)
-    spell.run_kind(ctx, "C01", "Gen_Spell", prm,
-                   "numbers: every n < %d, the product of representative 3-digit groups (%d low x %d high values), %d seeded numbers below 10^12; "
-                   "each in every orthographic variant of each language (en 3, fr 6, es 2, pt 3, it 3, de 4, nl 3), alone and inside one of 4 "
-                   "sentence contexts; every distinct phrase is non-trivial" % (prm["upto"], len(prm["rlow"]), len(prm["rhigh"]), prm["randn"]))
+    if q:
+        prm = dict(kind="card", upto=2000, rlow=[0, 1, 7, 11, 16, 21, 71, 80, 81, 88, 99, 100, 101, 181, 999], rhigh=[0, 1, 2, 100], randn=2000,
+                   seed=ctx.seed % 100000)
+        spell.run_kind(ctx, "C01", "Gen_Spell", prm,
+                       "numbers: every n < %d, the product of representative 3-digit groups (%d low x %d high values), %d seeded numbers below 10^12; "
+                       "each in every orthographic variant of each language (en 3, fr 6, es 3, pt 3, it 4, de 7, nl 4), alone and inside one of 4 "
+                       "sentence contexts; every distinct phrase is non-trivial" % (prm["upto"], len(prm["rlow"]), len(prm["rhigh"]), prm["randn"]))
+    else:
+        # every integer below 10^6 in every language and variant, in chunks; then representative groups and seeded numbers up to 10^12
+        step = 50000
+        chunks = [dict(kind="card", langs=[l], base=0, **{"from": a}, upto=step, rlow=[], rhigh=[], randn=0, seed=ctx.seed % 100000)
+                  for l in vlib.LANGS for a in range(0, 1000000, step)]
+        chunks += [dict(kind="card", langs=[l], base=0, **{"from": 0}, upto=0, rlow=spell.RQUICK_LOW, rhigh=[0, 1, 2, 21, 100, 999], randn=40000,
+                        seed=ctx.seed % 100000) for l in vlib.LANGS]
+        prm = dict(upto=1000000, rlow=spell.RQUICK_LOW, rhigh=[0, 1, 2, 21, 100, 999], randn=40000)
+        spell.run_chunks(ctx, "C01", "Gen_Spell", chunks,
+                         "EVERY integer below 10^6, the product of representative 3-digit groups (24 low x 6 high values) and 40000 seeded numbers below "
+                         "10^12 per language; each in every orthographic variant (en 3, fr 6, es 3, pt 3, it 4, de 7, nl 4), alone and inside one of 4 "
+                         "sentence contexts; every phrase is non-trivial")
     ctx.exhaustive = False
     ctx.extra["exhaustive_parts"] = ["every integer below %d in every language and variant" % prm["upto"]]
     ctx.assumptions += ["standard spelling = spec/Speller.tla (orthographic norms + forms pinned by the repository's tests)",
